@@ -179,7 +179,7 @@ func runC01(r *Report) {
 				}
 				return false
 			}
-			ok, bad := MustPass(s, hit)
+			ok, bad := MustPass(s, DeepHit(fn, hit, nil)) // the tail of a request may be split off into an unexported pipe method
 			why := "the in-flight counter incremented here is decremented on every path"
 			if !ok {
 				why = "a path from this increment reaches the return at " + p.Pos(InstrPos(bad)) + " without a decrement: the teardown loop (`for loadWaits() != 0`) and everything waiting for the closed state spin forever"
